@@ -17,11 +17,11 @@ EXPLANATION = ("Bounded symbolic execution of the MIR of VisualMetric::metric (+
                "assigned by a maximum-weight one-to-one positional assignment among the tracks not taken by appearance and "
                "labelled Positional; everything else starts a new track. The voting type travels update -> merge -> record.")
 ASSUMPTIONS = ["metric: one candidate observation x one track observation; box area from {1,4,16}; every option of VisualMetricOptions symbolic; feature distance and every threshold any non-NaN f32; IoU from {0,.125,.25,.5,.75,1}, confidences from {1/16,1/4,1/2,1} / {1/32,1/4,3/4}, Mahalanobis distance from {0,4,11,11.125,20,200} (factors of products / quotients come from exact grids so that changed implementations are decided as well)",
-               "voting: <= 2 detections x <= 2 tracks, streams of <= 3 results (quick) / 4 (thorough); ids pairwise distinct and > 0",
+               "voting: <= 2 detections x <= 2 tracks, streams of <= 2 results; ids pairwise distinct and > 0",
                "appearance distances: None or a value of {0,.25,.5,1,2,4}; positional weights: None or a value of {0,.125,.25,.5,.75}; positional threshold from {.125,.25,.5}; max feature distance from {0,.125,.25,.375,.5,.75,1,1.5,2,3,4,16} (every order relation with the distance grid); min votes <= 3",
                "kuhn_munkres returns a maximum-weight assignment (contract); HashMap/HashSet iteration order nondeterministic; into_group_map / tee / sort_by by their documented contracts",
                "ties in weight are accepted either way"]
-OUTSIDE = ["whole histories with galleries (the gallery content is C13; the distance numbers C16)", "more than 2 x 2 contests"]
+OUTSIDE = ["whole histories with galleries (the gallery content is C13; the distance numbers C16)", "more than 2 x 2 contests", "vote streams of 3 or 4 results and predict steps with 2 detections or 2 stored tracks (development-only deep tier: they do not finish within the tier budget)"]
 
 DGRID = [0.0, 0.25, 0.5, 1.0, 2.0, 4.0]
 WGRID = [0.0, 0.125, 0.25, 0.5, 0.75]
@@ -510,7 +510,7 @@ for vk in ('euclid', 'cosine'):
                       "VisualMetric::metric: appearance value exactly under the use thresholds / minimal collected features / visual threshold; positional value as in SORT",
                       "every option, quality, share, count and distance symbolic; %s visual metric, %s positional metric" % (vk, pk),
                       [VMM + "metric", VMM + "feature_can_be_used", VMM + "visual_metric", VMM + "positional_metric"], spec_calls=_metric_calls, replay=_replay_metric))
-for (nq, nt, nr, tier) in [(1, 1, 1, 'quick'), (1, 2, 2, 'quick'), (2, 1, 2, 'quick'), (2, 2, 2, 'quick'), (2, 2, 3, 'thorough'), (2, 2, 4, 'thorough')]:
+for (nq, nt, nr, tier) in [(1, 1, 1, 'quick'), (1, 2, 2, 'quick'), (2, 1, 2, 'quick'), (2, 2, 2, 'quick'), (2, 2, 3, 'deep'), (2, 2, 4, 'deep')]:   # deep: not finished within 3000 s (run 2), kept for development runs only
     MIR.append(MQ("c12_voting_q%d_t%d_r%d" % (nq, nt, nr), tier, _mk_voting(nq, nt, nr),
                   "VisualVoting::winners: appearance claims first (greatest weight wins, labelled Visual, losers excluded), positional maximum-weight fallback among the remaining tracks (labelled Positional)",
                   "%d detections x %d tracks, stream of %d results" % (nq, nt, nr),
@@ -529,6 +529,6 @@ MIR += [q for q in _c17.MIR if q.name.startswith('c17_bestfit')]
 import stepvisual as _stepv
 MIR += [q for q in _stepv.MIR]
 EXPLANATION += ' A whole VisualSort::predict_with_scene call is also executed from MIR on a symbolic tracker state (props/stepvisual.py: store model with the real worker loop, real builders / Track::add_observation / merge / VisualMetric::{metric, optimize} / VisualVoting / BestFitVoting / SortVoting code; geometry numbers, feature distances, feature packing and Kalman prediction uninterpreted): the decision expected from the symbolic inputs by the rules of the property is compared with the records.'
-ASSUMPTIONS += ['VisualSort predict step: <= 1 detection x <= 1 stored track in the quick tier (thorough 2x1, 1x2), 1-2 stored observations with / without features, previous voting type any; IoU + Euclidean mode; thresholds, confidences, qualities, IoU values and feature distances from small exact grids (quick: a reduced option grid); own-area thresholds 0 (shares not computed); candidate ids random, assumed distinct; fresh Kalman filter round trip exact; workers run when the caller blocks; HashMap iteration in insertion order']
+ASSUMPTIONS += ['VisualSort predict step: <= 1 detection x <= 1 stored track (quick: reduced option grid, thorough: full grid), 1-2 stored observations with / without features, previous voting type any; IoU + Euclidean mode; thresholds, confidences, qualities, IoU values and feature distances from small exact grids (quick: a reduced option grid); own-area thresholds 0 (shares not computed); candidate ids random, assumed distinct; fresh Kalman filter round trip exact; workers run when the caller blocks; HashMap iteration in insertion order']
 import C13 as _c13
 MIR += [q for q in _c13.MIR if q.name in ('c13_gallery_k2_max2', 'c13_gallery_k1_max1')]   # the collected-feature count the appearance gate reads
